@@ -836,8 +836,8 @@ func c08PatternAlphabet(p string) []string {
 // harvest string literals from /repo/*_test.go at run time: arguments of Compile/MustCompile ("direct"),
 // and any other literal that looks like a pattern ("table")
 func c08Harvest() (direct []string, table []string) {
-	files, _ := filepath.Glob("/repo/*_test.go")
-	more, _ := filepath.Glob("/repo/compat/*_test.go")
+	files, _ := filepath.Glob(repoPath()+"/*_test.go")
+	more, _ := filepath.Glob(repoPath()+"/compat/*_test.go")
 	files = append(files, more...)
 	sort.Strings(files)
 	seenD, seenT := map[string]bool{}, map[string]bool{}
